@@ -278,6 +278,9 @@ bool updateUnitMultiplier(const UnitsPtr &units, int direction, double &multipli
                 localMultiplier += mult + standardMult * exp + prefixMult;
             } else {
                 auto model = owningModel(units);
+                if (model == nullptr) {
+                    return false;
+                }
                 auto refUnits = model->units(ref);
                 if (refUnits == nullptr) {
                     return false;
